@@ -12,6 +12,7 @@
 //   F cur ck                         restoreFromPath's file plan on crafted directories (mem engine)
 //   TB keepA keepB hA hB             begin of a value-level trace on two stores (h = observed value id)
 //   TO W s h | B s t i h | G s dg h | R s t i | Y s t i | S s i | O s t i | X s | Z s h    one op of the trace
+//      V s t i = copy (t,i) of store s into the other store's rocksdb_backup/remote; M s t i = RestoreFromRemoteBackup
 //   (TO F s t i = store s runs kvStoreSM.PrepareSnapshot(t,i): asks the other store, reuses, copies)
 //   E eng r1 r2                      fetch scenario with a lineage reset at the source (sst numbers reused)
 //   K at                             K1 probe (writes racing with the checkpoint copy)
@@ -30,6 +31,7 @@ import (
 	"go/token"
 	"io/ioutil"
 	"log"
+	"math"
 	"os"
 	"path"
 	"sort"
@@ -178,6 +180,15 @@ func consts() {
 	}
 	fmt.Printf("Definition name_lower_hex : bool := %v.\n", lower == 1)
 	fmt.Printf("Definition footer_check_bytes : N := %d.\n", fb)
+	// the latestSnapIndex argument of the purge of rocksdb_backup/remote, read from the two call sites
+	src, err := ioutil.ReadFile(path.Join(repoRoot(), "rockredis", "rockredis.go"))
+	if err != nil {
+		log.Fatalf("consts: %v", err)
+	}
+	if strings.Count(string(src), "purgeOldCheckpoint(MaxRemoteCheckpointNum, r.GetBackupDirForRemote(), math.MaxUint64-1)") != 2 {
+		log.Fatalf("consts: the remote purge calls of backupLoop/restoreFromPath changed")
+	}
+	fmt.Printf("Definition remote_purge_latest : N := %d.\n", uint64(math.MaxUint64-1))
 	fmt.Printf("Definition log_prefix : list N := %s.\n", coqBytes(lp))
 	fmt.Printf("Definition sst_suffix : list N := %s.\n", coqBytes(ss))
 }
@@ -356,7 +367,7 @@ func parseReplay(file string) []cs {
 			case "W":
 				o.share = p[4] == "1"
 				o.cmds = decCmds(p[5])
-			case "B", "R", "Y", "O", "F":
+			case "B", "R", "Y", "O", "F", "V", "M":
 				o.t, _ = strconv.ParseUint(p[4], 16, 64)
 				o.i, _ = strconv.ParseUint(p[5], 16, 64)
 			case "S":
@@ -479,7 +490,7 @@ func runTrace(id string, tr *trace, co, io, sk *hx.Out) {
 				}
 			}
 		}
-		return fmt.Sprintf("%s %s %s %s %s", res, st[0].valueID(), st[1].valueID(), d[0], d[1])
+		return fmt.Sprintf("%s %s %s %s %s %s %s", res, st[0].valueID(), st[1].valueID(), d[0], d[1], st[0].remoteDigests(), st[1].remoteDigests())
 	}
 	co.Printf("%s.0\tTB\t%s\t%d\t%d\t%s\t%s\n", id, tr.eng, tr.keep[0], tr.keep[1], st[0].valueID(), st[1].valueID())
 	io.Printf("%s.0\t%s\n", id, obs("ok"))
@@ -517,6 +528,12 @@ func runTrace(id string, tr *trace, co, io, sk *hx.Out) {
 		case "Y":
 			res = s.copyCkTo(st[1-o.s], o.t, o.i)
 			co.Printf("%s\tTO\tY\t%d\t%x\t%x\n", lid, o.s, o.t, o.i)
+		case "V":
+			res = s.copyCkToRemote(st[1-o.s], o.t, o.i)
+			co.Printf("%s\tTO\tV\t%d\t%x\t%x\n", lid, o.s, o.t, o.i)
+		case "M":
+			res = s.restoreRemote(o.t, o.i)
+			co.Printf("%s\tTO\tM\t%d\t%x\t%x\n", lid, o.s, o.t, o.i)
 		case "F":
 			res = s.prepare(o.t, o.i)
 			co.Printf("%s\tTO\tF\t%d\t%x\t%x\n", lid, o.s, o.t, o.i)
